@@ -45,19 +45,24 @@ Lemma decompress_bound : forall (z : zoracle) s v,
   decompress z s = Ok v -> blen v <= zip_max_size.
 Proof.
   intros z s v. unfold decompress, zip_request, zip_post.
-  destruct (z (is_wrapped s) s (zip_max_size + 1)) as [[[value t] e]|err]; [|discriminate].
+  destruct (z (is_wrapped s) s (zip_max_size + 1)) as [[[value t] e]|err]; [|destruct err; discriminate].
   destruct (zip_max_size <? blen value) eqn:E; simpl; [discriminate|].
   destruct t; [discriminate|]. intros H. inversion H; subst. lia.
 Qed.
 
 Lemma decompress_error_class : forall (z : zoracle) s err,
   decompress z s = Err err ->
-  err = exceeded \/ z (is_wrapped s) s (zip_max_size + 1) = Err err.
+  err = exceeded \/
+  (z (is_wrapped s) s (zip_max_size + 1) = Err EZlib /\ err = EJose DecodeError) \/
+  (z (is_wrapped s) s (zip_max_size + 1) = Err err /\ err <> EZlib).
 Proof.
   intros z s err. unfold decompress, zip_request, zip_post.
-  destruct (z (is_wrapped s) s (zip_max_size + 1)) as [[[value t] e]|err']; [|intros H; right; inversion H; reflexivity].
-  destruct ((zip_max_size <? blen value) || t); [|discriminate].
-  intros H. inversion H. left. reflexivity.
+  destruct (z (is_wrapped s) s (zip_max_size + 1)) as [[[value t] e]|err'].
+  - destruct ((zip_max_size <? blen value) || t); [|discriminate].
+    intros H. inversion H. left. reflexivity.
+  - destruct err'; intros H; inversion H; subst; right;
+      try (right; split; [reflexivity|discriminate]).
+    left. split; reflexivity.
 Qed.
 
 Lemma decompress_single_query : forall (z1 z2 : zoracle) s,
